@@ -20,6 +20,12 @@ pub(crate) fn stub_decode_packet5(_src: Bytes, _first_byte: u8) -> Result<Packet
     if kani::any() { Ok(Packet::PingRequest) } else { Err(DecodeError::MalformedPacket) }
 }
 
+/// used only by fr5_step_header: "not enough bytes yet to know the PUBLISH header length"
+#[cfg(kani)]
+pub(crate) fn stub_packet_header_size(_src: &BytesMut, _flags: u8) -> Result<Option<u32>, DecodeError> {
+    Ok(None)
+}
+
 const MAX_RL: u32 = 268_435_455;
 
 fn any_fixed5(publish: bool) -> FixedHeader {
@@ -66,13 +72,14 @@ vharness! {
     //@ props: C02 C10
     //@ tier: quick
     //@ stubs: yes
-    //@ functions: v5::Codec::decode (FrameHeader arm and the arms it falls through to), utils::decode_variable_length(_cursor), packet_type::is_publish, Publish::packet_header_size, Publish::decode, parse_publish_properties
+    //@ functions: v5::Codec::decode (FrameHeader arm, Frame arm, entry into the PublishHeader arm), utils::decode_variable_length(_cursor), packet_type::is_publish
     //@ bounds: ONE decode call from the idle state; max_inbound_size, min_chunk_size full-width u32; buffer 0..=8 arbitrary bytes
-    //@ unwindset: utf8_is_valid=8 spec_fixed5=6 decode_variable_length_cursor=6 parse_publish_properties=8
-    //@ assumes: non-PUBLISH body decoders replaced by an arbitrary-result stub (decided per type in h_v5.rs)
+    //@ unwindset: spec_fixed5=6 decode_variable_length_cursor=6
+    //@ assumes: non-PUBLISH body decoders replaced by an arbitrary-result stub (decided per type in h_v5.rs); Publish::packet_header_size stubbed to "need more bytes" (the real one is decided by fr5_step_pubhdr from the PublishHeader pre-state)
     //@ mem: 10  timeout: 1200
     //@ desc: v5 frame layer from idle: incomplete header consumes nothing; over-size frame rejected on the fixed header with nothing consumed; incomplete body consumes exactly the header; complete frame consumes exactly 1+len(RL)+RL whatever the body decoder says
     #[kani::stub(super::super::decode::decode_packet, stub_decode_packet5)]
+    #[kani::stub(super::super::packet::Publish::packet_header_size, stub_packet_header_size)]
     fn fr5_step_header() unwind(9) {
         fr5_prelude!(codec, max_in, min_chunk);
         let data: [u8; 8] = vk::any_bytes::<8>();
@@ -84,7 +91,12 @@ vharness! {
         match spec_fixed5(&data[..len]) {
             None => {
                 assert!(consumed == 0);
-                assert!(matches!(r, Ok(None) | Err(_)));
+                let over_long = len >= 5 && data[1] & 128 != 0 && data[2] & 128 != 0 && data[3] & 128 != 0 && data[4] & 128 != 0;
+                if over_long {
+                    assert!(matches!(r, Err(_)), "five-byte Remaining Length must be rejected");
+                } else {
+                    assert!(matches!(r, Ok(None)));
+                }
                 assert!(matches!(post, DecodeState::FrameHeader));
             }
             Some((first, rl, hl)) => {
@@ -109,14 +121,19 @@ vharness! {
                         }
                     }
                 } else {
-                    assert!(consumed >= hl || matches!(r, Err(_)));
+                    // PUBLISH: the header-size probe is stubbed to "need more bytes" here (the real one is
+                    // decided from the PublishHeader pre-state by fr5_step_pubhdr): exactly the fixed
+                    // header is consumed and the publish state entered
+                    assert!(matches!(r, Ok(None)));
+                    assert!(consumed == hl);
+                    assert!(matches!(post, DecodeState::PublishHeader(h) if h.first_byte == first && h.remaining_length == rl));
                 }
             }
         }
         vcover!(matches!(r, Ok(Some(Decoded::Packet(..)))), "whole packet");
         vcover!(matches!(r, Err(DecodeError::MaxSizeExceeded { .. })), "max size exceeded");
         vcover!(matches!(r, Ok(None)) && consumed > 0, "header consumed, body pending");
-        vcover!(matches!(r, Ok(Some(Decoded::Publish(..)))), "publish");
+        vcover!(matches!(post, DecodeState::PublishHeader(_)), "publish header pending");
     }
 }
 
@@ -680,10 +697,10 @@ lim5_ack!(lim5_pubrel, PublishRelease, PublishAck2, any_puback2_reason, 0x62);
 macro_rules! lim5_suback {
     ($name:ident, $variant:ident, $ty:ident, $reason:ident, $first:expr) => {
         vharness! {
-            fn $name() unwind(6) {
-                let n = vk::any_len(2);
+            fn $name() unwind(7) {
+                let n = vk::any_len(4);
                 let mut status = Vec::new();
-                let mut wire = [0u8; 2];
+                let mut wire = [0u8; 4];
                 let mut i = 0;
                 while i < n {
                     let (c, w) = $reason();
@@ -729,7 +746,8 @@ macro_rules! lim5_suback {
                         assert!(again.encoded_size(lim) == rl as usize);
                         vcover!(n_up == 1 && pkt.properties.len() == 2, "second user property dropped, first kept");
                         vcover!(!has_rs && pkt.reason_string.is_some() && !npi, "reason string dropped by the limit");
-                        vcover!(n_up == 2 && has_rs && n == 2, "nothing dropped");
+                        vcover!(n_up == 2 && has_rs && n == 4, "nothing dropped, four codes");
+                        vcover!(n == 4 && n_up == 0 && pkt.properties.len() == 1 && !npi, "diagnostics dropped to make room for four codes");
                     }
                 }
             }
@@ -739,8 +757,8 @@ macro_rules! lim5_suback {
 //@ props: C09
 //@ tier: quick
 //@ functions: v5::Codec::{encodev, set_max_outbound_size}, EncodeLtd for SubscribeAck, ack_props::*, reduce_limit, encoded_size_opt_props, encode_opt_props
-//@ bounds: peer Maximum Packet Size: every u32 except 1..=5; request-problem-information symbolic; 0..=2 reason codes; 0..=2 user properties (0..=1-byte strings); optional reason string 0..=2 bytes
-//@ unwindset: utf8_is_valid=4 slice_eq=4 expect_lp=4 expect_raw=4 any_user_props2=4 encode_opt_props=4 encoded_size_opt_props=4 clone=4 spec_read_diag_lim=5 diag_full_len=4 clear=4 SubscribeAck=4
+//@ bounds: peer Maximum Packet Size: every u32 except 1..=5; request-problem-information symbolic; 0..=4 reason codes; 0..=2 user properties (0..=1-byte strings); optional reason string 0..=2 bytes
+//@ unwindset: utf8_is_valid=4 slice_eq=4 expect_lp=4 expect_raw=6 any_user_props2=4 encode_opt_props=4 encoded_size_opt_props=4 clone=6 spec_read_diag_lim=5 diag_full_len=4 clear=4 SubscribeAck=6
 //@ assumes: strings well-formed UTF-8; peer limits 1..=5 excluded (recorded finding)
 //@ mem: 10  timeout: 1500
 //@ desc: SUBACK under an outbound limit (obligations as lim5_puback; reason codes never dropped)
@@ -749,7 +767,7 @@ lim5_suback!(lim5_suback, SubscribeAck, SubscribeAck, any_suback_reason, 0x90);
 //@ tier: quick
 //@ functions: v5::Codec::{encodev, set_max_outbound_size}, EncodeLtd for UnsubscribeAck, ack_props::*, reduce_limit
 //@ bounds: as lim5_suback
-//@ unwindset: utf8_is_valid=4 slice_eq=4 expect_lp=4 expect_raw=4 any_user_props2=4 encode_opt_props=4 encoded_size_opt_props=4 clone=4 spec_read_diag_lim=5 diag_full_len=4 clear=4 UnsubscribeAck=4
+//@ unwindset: utf8_is_valid=4 slice_eq=4 expect_lp=4 expect_raw=6 any_user_props2=4 encode_opt_props=4 encoded_size_opt_props=4 clone=6 spec_read_diag_lim=5 diag_full_len=4 clear=4 UnsubscribeAck=6
 //@ assumes: strings well-formed UTF-8; peer limits 1..=5 excluded (recorded finding)
 //@ mem: 10  timeout: 1500
 //@ desc: UNSUBACK under an outbound limit
